@@ -36,9 +36,11 @@ func H_C14(tbl, router, stage int) {
 	verifAssume(len(strings.Trim(p, "/")) > 0)
 	verifAssume(strings.Count(strings.Trim(p, "/"), "/") < maxSeg)
 	// recorded finding: a regex variable that admits the empty string (table 23) under RouterJSR311
+	// recorded finding: p names exactly the prefix in front of a last variable whose expression admits ""
+	segsK, _ := vSegments(p)
 	nullable := false
 	for _, f := range h.flat {
-		if n := len(f.toks); n > 0 && f.toks[n-1].kind == tkRegex && vRx("^(?:"+f.toks[n-1].re+")$").MatchString("") {
+		if n := len(f.toks); n > 0 && f.toks[n-1].kind == tkRegex && vRx("^(?:"+f.toks[n-1].re+")$").MatchString("") && len(segsK) == n-1 {
 			nullable = true
 		}
 	}
